@@ -45,7 +45,7 @@ TIERS = {
     #   larger: how many of the larger structures are replayed (None = all), reps: random form vectors for each;
     # behaviour: fraction of replayed renderings compiled and run
     "quick": dict(mc=[(("a", "b"), 3)],
-                  gen=[dict(names=("a", "b", "c"), cost=3, full_cost=2, larger=15000, reps=1)],
+                  gen=[dict(names=("a", "b", "c"), cost=3, full_cost=2, larger=18000, reps=1)],
                   run_every=14, builds="31", ill=300, real_renames=2, real_runs=4, gen_programs=12, chunk=7000),
     "thorough": dict(mc=[(("a", "b"), 3), (("a", "b", "c"), 3), (("a", "b"), 4)],
                      gen=[dict(names=("a", "b", "c"), cost=3, full_cost=2, larger=None, reps=3),
